@@ -776,7 +776,7 @@ def extract_fn(repo, spec, features):
             if t.kind == 'punct' and t.text in '([{':
                 j = sf.pairs[j] + 1
                 continue
-            if is_id(t, 'let') and is_id(T[j + 1], var) and alive(t):
+            if is_id(t, 'let') and alive(t) and (is_id(T[j + 1], var) or (is_id(T[j + 1], 'mut') and is_id(T[j + 2], var))):
                 k = j + 2
                 while not is_p(T[k], '='):
                     k += 1
@@ -822,6 +822,8 @@ def extract_fn(repo, spec, features):
             if not (t.kind == 'punct' and t.text in ';{}') or not alive(t):
                 continue
             a = j + 1
+            while a < bc and not alive(T[a]):   # attributes dropped by the cfg pass
+                a += 1
             if a >= bc or is_id(T[a], 'let') or (T[a].kind == 'punct' and T[a].text in ';{}'):
                 continue
             e = a
@@ -1101,7 +1103,8 @@ def extract_fn(repo, spec, features):
         # an anchor inside a dropped / abstracted region is gone; an `after` anchor may START inside an
         # abstracted statement (R6/R7) as long as it ENDS behind it (typically on the closing `;`)
         ms = [m for m in re.finditer(pat, body_text)
-              if not any(s <= body_text_lo + (m.start() if where == 'before' else m.end() - 1) < e for (s, e) in dropped)]
+              if not any((s < body_text_lo + m.start() < e) if where == 'before' else (s <= body_text_lo + m.end() - 1 < e)
+                         for (s, e) in dropped)]
         if len(ms) != 1:
             raise ExtractError(f'lost anchor: /{pat}/ matches {len(ms)} times in {spec["name"]}')
         off = body_text_lo + (ms[0].start() if where == 'before' else ms[0].end())
